@@ -136,6 +136,54 @@ def run(tier, seed):
                 rep.samples.append({"program": prog, "root": [root, ctx], "subcalls": subs, "subsets_tried": len(subsets[:max_subsets])})
         nconc = concurrent_provenance(m, scratch, rep, 45 if tier == "quick" else 400)
         total += nconc
+        # sub-calls made with ignore_result() (singly and as a batch): the caller's record lists them and what lies beneath
+        # them exactly as for ordinary sub-calls, whatever subset of them was memoized beforehand
+        from . import fnmod as _fm
+        from . import fnlib as _fl
+        stats["ignore_result_cases"] = 0
+        for ii in range(4 if tier == "quick" else 40):
+            nk = rng.randint(1, 3)
+            form = rng.choice(["single", "batch"])
+            base = 500000 + 100 * ii
+            grand = {"id": base + 50}
+            leaves = [{"id": base + k, "calls": [{"fn": "n2", "spec": grand, "catch": True}]} if k == 0 else {"id": base + k} for k in range(nk)]
+            if form == "batch":
+                calls = [{"fn": "n1", "batch": leaves, "ignore": True, "catch": True}]
+            else:
+                calls = [{"fn": "n1", "spec": lf, "ignore": True, "catch": True} for lf in leaves]
+            rspec = {"id": base + 99, "calls": calls}
+            want_inv = [base + k for k in range(nk)]
+            want_deps = sorted(["n0", "n1", "n2"])
+            subsets = [list(c) for r in range(nk + 1) for c in itertools.combinations(range(nk), r)]
+            for si, subset in enumerate(subsets):
+                kind = rng.choice(["mem", "fs", "fs_cache"])
+                storage = R.make_storage(kind, scratch, "ig%d_%d" % (ii, si))
+                _fl.set_env(m, scratch, {"fc": (storage, None)})
+                meta = {"root": rspec, "form": form, "pre_memoized": [leaves[k]["id"] for k in subset], "backend": kind}
+                try:
+                    for k in subset:
+                        _fm.n1(leaves[k])
+                    _fm.n0(rspec)
+                    mm = _fm.n0.memento(rspec)
+                    total += 1
+                    stats["ignore_result_cases"] += 1
+                    if mm is None:
+                        rep.violation("C10:no-memento", "no memento recorded for the root call", meta)
+                        continue
+                    inv = []
+                    for x in mm.invocation_metadata.invocations:
+                        kw = x.effective_kwargs if hasattr(x, "effective_kwargs") else x.kwargs
+                        inv.append((kw.get("spec") or (x.args[0] if x.args else {})).get("id"))
+                    deps = sorted({d.qualified_name.split(":")[-1].split("#")[0] for d in mm.function_dependencies})
+                    meta["memento"] = {"invocations": inv, "deps": deps}
+                    if inv != want_inv:
+                        rep.violation("C10:invocations-not-exact:ignore-result", "recorded invocations %r, the body made (with ignore_result) %r" % (inv, want_inv), meta)
+                    if deps != want_deps:
+                        rep.violation("C10:dependencies-not-exact:ignore-result", "recorded function dependencies %r, functions invoked beneath the call %r" % (deps, want_deps), meta)
+                except Exception as e:
+                    rep.violation("C10:ignore-result-raised", "%s: %s" % (type(e).__name__, str(e)[:200]), meta)
+                import shutil as _sh
+                _sh.rmtree(os.path.join(scratch, "store-ig%d_%d" % (ii, si)), ignore_errors=True)
         # recorded argument hashes when the arguments are dates / times: each hash the parent's record lists must be the
         # hash of the call the body made and must name that call's memento, also after the record is re-read from disk
         import datetime
